@@ -22,7 +22,7 @@ RULE = ("Hypothesis-generated process states built by the harness as root: (ruid
         "without passwd/group entries, pairwise distinct in most cases; new session; cwd normal / deep (up to ~4000 bytes) / renamed "
         "/ deleted; stdin pty (slave chowned to a third uid) / pipe / closed; environments empty / small / huge / names with '='; "
         "ancestor chains of depth 0..6 with set names, orphaned (parent = init) processes; private UTS namespace with a generated "
-        "host name; LOGNAME/SUDO_USER; strftime formats from a set; cgroup selectors by number and controller. One record with every "
+        "host name; LOGNAME/SUDO_USER; strftime formats from a set; cgroup selectors by number and controller (plus, traced: each read() of /proc/<pid>/cgroup failing with EINTR/EIO -> true line or explicit failure text). One record with every "
         "data source is compared, source by source, with an oracle computed in the same state by raw syscalls / own /proc parsing / "
         "the system's passwd+group database. non-trivial = at least three of {uid,euid,gid,egid} differ, or a tty is present, or cwd "
         "is deleted/deep, or the process is an orphan; distinct by state class")
@@ -352,6 +352,69 @@ def classify(c):
     return key, cls
 
 
+def interrupted_reads_phase(ctx, b):
+    """%{cgroup:X} when a read() of /proc/<pid>/cgroup fails (signal without SA_RESTART -> EINTR, EIO): the value is the process's true
+    line or the documented explicit failure text -- never a different 'valid-looking' value such as (none)."""
+    import trace
+    os_ = trace.OneShot(ctx.run, b, "cgread")
+    out = os_.out
+    try:
+        lines = [l for l in open("/proc/self/cgroup", "rb").read().split(b"\n") if l]
+    except OSError:
+        lines = []
+    if not lines:
+        ctx.inconclusive.append("no /proc/self/cgroup lines in this sandbox: interrupted-read phase skipped")
+        return
+    num, _, rest = lines[0].partition(b":")
+    ctrls = rest.partition(b":")[0]
+    sels = [num] + ([ctrls.split(b",")[0]] if ctrls else [])
+    for sel in sels:
+        ini = gen.render_ini([(b"output", b"file:" + out.encode() + b"/log"), (b"message_format", b"CG=%{cgroup:" + sel + b"}|END")])
+        os_.write_scenario([drv.op("x", out + "/log"), drv.op("C", ini), drv.op_exec("e", b"/bin/prog", [b"prog"], [], ret=-1, err=2)])
+
+        def record():
+            try:
+                return open(out + "/log", "rb").read()
+            except FileNotFoundError:
+                return b""
+        rc, events = os_.run_traced([], timeout=30)
+        calls, _ = os_.parse_log()
+        truth = record()
+        want = b"CG=" + lines[0] + b"|END\n"
+        if rc != 0 or truth != want:
+            ctx.inconclusive.append("interrupted-read phase: undisturbed traced run gives %r, expected %r" % (truth[:80], want[:80]))
+            return
+        fd, reads = None, []
+        for c in calls:
+            if c["phase"] != 1:
+                continue
+            m = re.search(r'/cgroup", [^)]*\) = (\d+)', c["text"])
+            if c["name"] == "openat" and m:
+                fd = m.group(1)
+            elif fd is not None and c["name"] == "read" and c["text"].startswith("read(%s," % fd):
+                reads.append(c)
+            elif fd is not None and c["name"] == "close" and c["text"].startswith("close(%s)" % fd):
+                fd = None
+        for k, c in enumerate(reads):
+            for e in ("EINTR", "EIO"):
+                try:
+                    os.unlink(out + "/log")
+                except FileNotFoundError:
+                    pass
+                inj = "read:error=%s:when=%d" % (e, c["ordinal"])
+                rc, events = os_.run_traced(["-e", "inject=" + inj], timeout=30)
+                got = record()
+                ctx.count(("cgread", sel, k, e), ["fault:read-of-cgroup-file", "errno:" + e], sample={"selector": sel, "fault": inj, "read": c["text"][:80], "record": got[:120]})
+                if rc != 0:
+                    ctx.violation({"cgroup_read_fault": inj, "selector": sel}, {"rc": rc}, None, "call crashed when a read of /proc/<pid>/cgroup failed (%s)" % inj)
+                    return
+                if got != want and b"[ERROR: Data source 'cgroup' failed" not in got:
+                    ctx.violation({"cgroup_read_fault": inj, "selector": sel}, {"record": got[:200]}, {"record": want, "or": "explicit data source failure text"},
+                                  "%%{cgroup:%s} reports a value that is neither the process's control group line nor an explicit failure when read #%d of /proc/<pid>/cgroup fails with %s"
+                                  % (sel.decode("latin-1"), k + 1, e))
+                    return
+
+
 def main():
     global VERSION, CONFIGURE
     ctx = Ctx(PID, "exploration", RULE)
@@ -365,6 +428,8 @@ def main():
                        "states the sandbox refuses to construct (e.g. setresuid errors) are skipped and counted, never judged"]
     nw, per = (4, 350) if ctx.quick else (16, 2500)
     pbt.run(ctx, {"ts-asan": b}, strategy, evaluate, classify, nw, per)
+    if not ctx.replay:
+        interrupted_reads_phase(ctx, b)
     ctx.finish()
 
 
